@@ -10,6 +10,7 @@ import (
 	"sort"
 	"strings"
 	"sync"
+	"sync/atomic"
 	"time"
 
 	"golang.org/x/tools/go/ssa"
@@ -87,6 +88,28 @@ func (V *Verifier) verifyFunctions(keys []string, keep func(o *Oblig) bool, scra
 		}(j)
 	}
 	wg.Wait()
+	// Second chance, one at a time: an obligation that no solver refuted but that ran out of time while up to six others were
+	// being discharged next to it (or while the machine was busy with something else) is tried again alone, with three
+	// times the time limit and the whole portfolio. Only for a handful: a change that breaks a property fails many
+	// obligations at once, and those are not worth the wait.
+	var again []job
+	for _, j := range jobs {
+		if (j.o.Status == "timeout" || j.o.Status == "unknown") && !j.o.Vacuity && strings.Contains(j.o.Detail, "timeout") && !isKnownOpen(j.o.Name) {
+			again = append(again, j)
+		}
+	}
+	if len(again) > 0 && len(again) <= 6 {
+		saved := V.timeout
+		V.timeout = saved * 3
+		for _, j := range again {
+			atomic.StoreInt32(&definiteFailures, 0)
+			first := j.o.Detail
+			j.o.Status, j.o.Backend = "", ""
+			V.discharge(j.o, j.sums, scratch)
+			j.o.Detail = "retried alone after: " + first + " || " + j.o.Detail
+		}
+		V.timeout = saved
+	}
 	return results, all
 }
 
@@ -229,6 +252,22 @@ func (kf *KnownFindings) isOpen(prop, oblig string) (string, bool) {
 		}
 	}
 	return "", false
+}
+
+var openKnownOnce *KnownFindings
+
+// isKnownOpen: the obligation is listed as an open finding (for whatever property): it is expected to fail, so it is
+// neither retried nor counted among the failures that shorten the treatment of the other obligations.
+func isKnownOpen(oblig string) bool {
+	if openKnownOnce == nil {
+		openKnownOnce = loadKnown()
+	}
+	for _, o := range openKnownOnce.Open {
+		if obligMatches(o.Obligation, oblig) {
+			return true
+		}
+	}
+	return false
 }
 
 // obligMatches: a known finding names an obligation up to the "@site" suffix.
